@@ -9,6 +9,8 @@ Agreement of resolvers on all directory layouts as behaviour is NOT decided. Dec
   4 VISKEY       the key under which a dependency's exports are registered equals the key the visibility check
                  looks up (`segments.join("_")`), at every registration site
   5 WORKLIST     every module work-list loop tests its visited set before reading / parsing / enqueueing
+  6 REGALL       check_with_imports records the export list of every dependency module, also an empty one
+  7 MISSINGMOD   an import that resolves to no file is reported (known finding: it is skipped silently)
 """
 from engines import (AST, all_string_constants, backward_slice, blocks_dominated_by_edge, body_and_closures,
                      callee_generic, callee_name, const_str, derived_locals, iter_operands_rv, op_place, place_fields,
